@@ -4,7 +4,9 @@ go 1.13
 
 require (
 	github.com/BurntSushi/toml v0.0.0-00010101000000-000000000000
+	github.com/golang/snappy v0.0.1
 	github.com/grafana/carbon-relay-ng v0.0.0
+	github.com/grafana/metrictank v1.0.1-0.20210114150051-52835b9a8775
 	github.com/metrics20/go-metrics20 v0.0.0-20180821133656-717ed3a27bf9
 	github.com/sirupsen/logrus v1.1.2-0.20181020050904-08e90462da34
 	github.com/streadway/amqp v0.0.0-20170521212453-dfe15e360485
